@@ -65,6 +65,41 @@ def run_boot(wk, scenario, workers=2):
         s.cleanup()
 
 
+DEPLOY = {
+    "plain": [],
+    # the statsd instrumentation with tags that are not ASCII (the datagram cannot be built: a warning, nothing more)
+    "statsd-tags": ["--statsd-host", "127.0.0.1:9", "--dogstatsd-tags", "env:prod,\u00e9quipe:web"],
+    "statsd-prefix": ["--statsd-host", "127.0.0.1:9", "--statsd-prefix", "caf\u00e9"],
+    "capture-output": ["--capture-output", "--log-level", "debug"],
+}
+
+
+def run_death(wk, deploy, sig, workers=2):
+    """a worker that has booted is killed by a signal: the master reaps it and starts another one"""
+    s = rp.Server(wk, workers=workers, threads=2 if wk == "gthread" else None, args=list(DEPLOY[deploy]), name="c03death")
+    try:
+        try:
+            s.start()
+            first = s.wait_booted(workers)
+            os.kill(first[0], sig)
+        except RuntimeError:
+            # nothing boots under this deployment: the workers die by themselves; judged like a killed worker (the master
+            # may stop with a distinct status -- then it is not this scenario's business -- but must not crash)
+            if s.proc is not None and s.proc.poll() in (3, 4):
+                raise
+        time.sleep(3.0)
+        mstate = rp.proc_state(s.pid)
+        kids = s.workers() if mstate not in (None, "Z") else []
+        live = [p for p in kids if rp.proc_state(p) not in (None, "Z")]
+        zombies = [p for p in kids if rp.proc_state(p) == "Z"]
+        return {"scenario": "death:" + deploy, "workers": workers, "window_ms": 3000,
+                "ev": [{"e": "death", "master_alive": mstate not in (None, "Z"), "live": len(live), "zombies": len(zombies)}]}, \
+            {"wk": wk, "scenario": "worker killed by signal %d, deployment %s" % (sig, deploy), "status": None, "forks": None,
+             "log": s.errlog()[-600:]}
+    finally:
+        s.cleanup()
+
+
 def boot_side(ctx):
     from props.reload_real import _parallel
     names = [n for n in SCENARIOS if SCENARIOS[n]]
@@ -73,13 +108,20 @@ def boot_side(ctx):
     plan = [("sync", n, 1) for n in names] + [("gthread", "post_worker_init_raises", 1), ("sync", "post_worker_init_raises", 2)] \
         if ctx.quick else \
         [(wk, n, k) for wk in ("sync", "gthread", "gevent", "eventlet") for n in names for k in (1, 2)]
-    results = _parallel(plan, lambda a, i: run_boot(a[0], a[1], a[2]), par=6)
+    import signal as _signal
+    plan += [("sync", "@statsd-tags", _signal.SIGKILL), ("gthread", "@statsd-prefix", _signal.SIGSEGV), ("sync", "@plain", _signal.SIGABRT)] \
+        if ctx.quick else \
+        [(wk, "@" + d, sg) for wk in ("sync", "gthread", "gevent") for d in DEPLOY for sg in (_signal.SIGKILL, _signal.SIGSEGV)]
+
+    def one(a):
+        return run_death(a[0], a[1][1:], a[2]) if a[1].startswith("@") else run_boot(a[0], a[1], a[2])
+    results = _parallel(plan, lambda a, i: one(a), par=6)
     traces = [r[0] for r in results]
     metas = [r[1] for r in results]
     verdicts, stats = tlc.validate_batch("BootTrace", "BootTrace.cfg", traces, name="BootTrace_C03")
     ctx.add_traces(len(traces), stats)
     tlc.repeat_failing(ctx, "BootTrace", "BootTrace.cfg", traces, metas, verdicts, range(len(plan)),
-                       lambda k: run_boot(plan[k][0], plan[k][1], plan[k][2]), "BootTrace_C03")
+                       lambda k: one(plan[k]), "BootTrace_C03")
     ctx.coverage["real_process_boot_failures"] = len(traces)
     for t, m, (v, step) in zip(traces, metas, verdicts):
         if v == "ok":
